@@ -77,6 +77,10 @@ func GetKeyFromPassword(passwd string, cname types.PrincipalName, realm string, 
 	sk2p := et.GetDefaultStringToKeyParams()
 	var salt string
 	var paID int32
+	// The etype named by the hint that takes precedence (RFC 4120 5.2.7.5) is the one used, in whichever
+	// order the hints arrive: it is resolved once the winning hint is known.
+	hintEType := etypeID
+	var s2kFromHint bool
 	for _, pa := range pas {
 		switch pa.PADataType {
 		case patype.PA_PW_SALT:
@@ -97,12 +101,7 @@ func GetKeyFromPassword(passwd string, cname types.PrincipalName, realm string, 
 			if len(eti) < 1 {
 				return key, et, fmt.Errorf("PA-ETYPE-INFO in PA Data has no entries")
 			}
-			if etypeID != eti[0].EType {
-				et, err = GetEtype(eti[0].EType)
-				if err != nil {
-					return key, et, fmt.Errorf("error getting encryption type: %v", err)
-				}
-			}
+			hintEType = eti[0].EType
 			salt = string(eti[0].Salt)
 			paID = pa.PADataType
 		case patype.PA_ETYPE_INFO2:
@@ -117,17 +116,22 @@ func GetKeyFromPassword(passwd string, cname types.PrincipalName, realm string, 
 			if len(et2) < 1 {
 				return key, et, fmt.Errorf("PA-ETYPE-INFO2 in PA Data has no entries")
 			}
-			if etypeID != et2[0].EType {
-				et, err = GetEtype(et2[0].EType)
-				if err != nil {
-					return key, et, fmt.Errorf("error getting encryption type: %v", err)
-				}
-			}
+			hintEType = et2[0].EType
 			if len(et2[0].S2KParams) == 4 {
 				sk2p = hex.EncodeToString(et2[0].S2KParams)
+				s2kFromHint = true
 			}
 			salt = et2[0].Salt
 			paID = pa.PADataType
+		}
+	}
+	if hintEType != etypeID {
+		et, err = GetEtype(hintEType)
+		if err != nil {
+			return key, et, fmt.Errorf("error getting encryption type: %v", err)
+		}
+		if !s2kFromHint {
+			sk2p = et.GetDefaultStringToKeyParams()
 		}
 	}
 	if salt == "" {
